@@ -185,6 +185,8 @@ def run(F, R, tier, cfg):
     decay_rule(F, R)
     target_flow_rule(F, R)
     penalty_sign_rule(F, R)
+    burst_combine_rule(F, R)
+    cache_refresh_rule(F, R)
 
 
 TARGET = "scion_stack::path::manager::issues::IssueKind::target_type"
@@ -294,3 +296,71 @@ def penalty_sign_rule(F, R):
     if not ok:
         R.violation("PEN-link", PENALTY, "a link-failure SCMP error does not carry a strictly negative penalty (%s): the report is ingested and ranked, and nothing "
                     "is steered away from the broken interface" % found, F.loc(PENALTY))
+
+
+ADD_ISSUE = "scion_stack::path::manager::PathIssueManager::add_issue"
+DRAIN = "drain_and_apply_issue_channel"
+
+
+def burst_combine_rule(F, R):
+    """FLOW-burst: handle_issue_rx ingests the received issue *and* drains every issue queued behind it; whether the active
+    path is re-decided must depend on all of them: the result of the drain is combined into the result whose
+    `active_path_affected` flag is branched on (a `combine` call taking the ingest result and the drain result, dominating the
+    branch).  Otherwise a burst whose first report misses the active path and whose later one hits it leaves traffic on the
+    broken interface."""
+    b = F.body(HANDLE)
+    if b is None:
+        return
+    ing = [c for c in b.calls if not c.indirect and c.decl.endswith("::ingest_path_issue")]
+    dr = [c for c in b.calls if not c.indirect and c.decl.endswith("::" + DRAIN)]
+    gs = [g for g in sorted(b.live_blocks()) if FX.bool_edges(b, g) and "field:active_path_affected" in tokens(b.origin(b.term(g)[1]))
+          and b.origin(b.term(g)[1])[0] in ("field", "deref", "ref")]
+    comb = [c for c in b.calls if not c.indirect and c.decl.endswith("PathIssueIngestResult::combine") and c.bb in b.live_blocks()]
+    ok, why = False, "no combine(ingest result, drain result) before the branch on active_path_affected"
+    if not dr:
+        ok, why = True, "no drain in this handler"
+    for c in comb:
+        t0, t1 = tokens(b.origin(c.args[0])), tokens(b.origin(c.args[1]))
+        both = (any(t.endswith("::ingest_path_issue") for t in t0) and any(t.endswith("::" + DRAIN) for t in t1)) or \
+               (any(t.endswith("::ingest_path_issue") for t in t1) and any(t.endswith("::" + DRAIN) for t in t0))
+        if both and gs and all(b.dominates(c.bb, g) for g in gs):
+            # and the branched flag belongs to the combined value (the &mut receiver of combine)
+            recv = PN._peel_refs(strip_sites(b.origin(c.args[0])))
+            flag_of = [PN._peel_refs(strip_sites(b.origin(b.term(g)[1]))) for g in gs]
+            if all(f[0] == "field" and PN._peel_refs(f[1]) == recv for f in flag_of):
+                ok, why = True, "combine dominates the branch and the flag is read from the combined value"
+            else:
+                why = "the flag that is branched on is not read from the combined value"
+    R.ob("FLOW-burst", "handle_issue_rx: re-evaluation depends on the received issue and on every drained one (%s)" % why, ok, True,
+         {"rule": "FLOW-burst", "ingest_calls": len(ing), "drain_calls": len(dr), "combine_calls": len(comb), "holds": ok, "why": why})
+    if not ok:
+        R.violation("FLOW-burst", HANDLE + "/combine", "the decision to re-evaluate the active path ignores the issues drained behind the first one (%s): a burst "
+                    "whose later report hits the active path leaves traffic on the interface just reported down" % why, F.loc(HANDLE))
+
+
+def cache_refresh_rule(F, R):
+    """FLOW-refresh: an issue that passes the de-duplication window is cached with *this* report's marker (timestamp), because
+    penalties replayed onto newly fetched paths decay from the cached timestamp: every path through add_issue that queues the
+    report (fifo push) also `insert`s the new marker into the cache, replacing an older one.  `entry().or_insert()` keeps the
+    first report's timestamp and a re-reported failure is replayed already decayed."""
+    b = F.body(ADD_ISSUE)
+    if b is None:
+        R.anchor_missing(ADD_ISSUE)
+        return
+    R.fn(ADD_ISSUE)
+    pushes = [c for c in b.calls if not c.indirect and c.decl.endswith("::push_back") and "field:fifo_issues" in tokens(b.origin(c.args[0])) and c.bb in b.live_blocks()]
+    ins = [c for c in b.calls if not c.indirect and re.search(r"HashMap::<K, V, S>::insert$|HashMap<K, V, S>::insert$|::insert$", c.decl)
+           and "field:cache" in tokens(b.origin(c.args[0])) and c.bb in b.live_blocks()]
+    keep_old = [c for c in b.calls if not c.indirect and re.search(r"::(or_insert|or_insert_with|or_default|try_insert)$", c.decl) and c.bb in b.live_blocks()]
+    ok = bool(pushes) and bool(ins) and not keep_old
+    for pcall in pushes:
+        ok = ok and any(b.dominates(pcall.bb, i.bb) or b.dominates(i.bb, pcall.bb) for i in ins)
+    for i in ins:
+        # the inserted value is the marker parameter itself
+        ok = ok and len(i.args) >= 3 and PN._peel_refs(strip_sites(b.origin(i.args[2]))) == ("param", 3)
+    R.ob("FLOW-refresh", "add_issue: the queued report's marker replaces the cached one (cache.insert(id, marker))", ok, True,
+         {"rule": "FLOW-refresh", "fifo_pushes": len(pushes), "cache_inserts": len(ins), "keep_old_calls": [short(c.decl) for c in keep_old], "holds": ok})
+    if not ok:
+        R.violation("FLOW-refresh", ADD_ISSUE, "a re-reported issue does not replace the cached marker (%d insert(s), keep-old calls %s): penalties replayed onto newly "
+                    "fetched paths decay from the first report's timestamp, so the failed interface is chosen again while the report is fresh"
+                    % (len(ins), [short(c.decl) for c in keep_old]), F.loc(ADD_ISSUE))
